@@ -473,8 +473,22 @@ Qed.
 
 Ltac red1_ := cbn -[ext16 info_of ev_of_op enc_entries exists_b apply_ops order_by save_ops pth vps vp
                     set_add_all set_inter set_diff padd_all mem filter nonempty].
-Ltac red_ := red1_; repeat (progress rewrite ?znat_S_eqb0, ?apply_ops_nil, ?entries_set_of, ?znat_S_sub1, ?zeqb_nat, ?S_sub1,
-                              ?vp_eqb, ?truthy_vps, ?vps_nonempty, ?info_first_eq, ?app_nil_r; red1_).
+(* the rewrites that keep the symbolic state in the vocabulary of the lemmas (guarded by a syntactic test: cheaper) *)
+Ltac rw1 :=
+  match goal with
+  | |- context [(Z.of_nat (S _) =? 0)%Z] => rewrite znat_S_eqb0
+  | |- context [apply_ops _ []] => rewrite apply_ops_nil
+  | |- context [dict_set (enc_entries _) _ _] => rewrite entries_set_of
+  | |- context [(Z.of_nat (S _) - 1)%Z] => rewrite znat_S_sub1
+  | |- context [(Z.of_nat _ =? Z.of_nat _)%Z] => rewrite zeqb_nat
+  | |- context [S _ - 1] => rewrite S_sub1
+  | |- context [val_eqb (vp _) (vp _)] => rewrite vp_eqb
+  | |- context [truthy (VSet (vps _))] => rewrite truthy_vps
+  | |- context [match vps _ with [] => false | _ :: _ => true end] => rewrite vps_nonempty
+  | |- context [nonempty (filter _ (padd_all [] _))] => rewrite info_first_eq
+  | |- context [(_ ++ [])%list] => rewrite app_nil_r
+  end.
+Ltac red_ := red1_; repeat (rw1; red1_).
 Lemma ops_of_events_app a r : ops_of_events (map ev_of_op a ++ r) = option_map (app a) (ops_of_events r).
 Proof.
   induction a as [|o a IH]; cbn [map app]; [destruct (ops_of_events r); reflexivity|].
